@@ -89,10 +89,14 @@ func c15Classify(bed *opbed.Bed, tok string) c15Issued {
 		return c15Issued{}, false
 	}
 	if plain, err := crypto.DecryptAES(tok, string(bed.CryptoKey[:])); err == nil {
-		parts := strings.Split(plain, ":")
-		if len(parts) == 2 {
-			if is, ok := stored(parts[0]); ok {
+		// the storage's token ids never contain ':' - the record is found by the FIRST colon, whatever the subject looks like (deep4);
+		// live at the provider = live in the storage AND accepted by the provider's own userinfo endpoint (its parser of opaque tokens)
+		if id, _, found := strings.Cut(plain, ":"); found {
+			if is, ok := stored(id); ok {
 				is.form = "opaque"
+				if is.live && bed.Do(bed.Get("/userinfo", nil, tok)).Status != 200 {
+					is.live = false
+				}
 				return is
 			}
 		}
@@ -168,7 +172,19 @@ type c15Spec struct {
 	sshadow        bool   // the verifier storage ALSO knows the provider's own subject / actor token, as other identities:
 	ashadow        bool   // the provider's own resolution must win, the storage is only a fallback
 	fixed          string // label of a deterministic preamble case ("" = random)
+	// deep4
+	auser string // whose token the actor token is ("" = actor1)
+	pol   string // the exchange storage's policy: "check" (reference: an access token's id must be live in the store) | "trust" (the
+	// repository's example storage: the framework's resolution is taken as it is, no lookup of the id)
 }
+
+// users whose subject identifier contains ':' (namespaced / URN / DID style); the part after the last colon is the id of ANOTHER known user
+var c15ColonUsers = []string{"corp:user2", "urn:user:user2", "did:example:123:actor1", ":user2", "user2:", "a::user1"}
+
+// token kinds whose liveness only the storage's lookup of the token id can establish: never paired with the trusting policy
+var c15DeadAT = map[string]bool{"expired-at": true, "revoked-at": true, "revoked-jwt-at": true, "revoked-xchg-at": true}
+
+func c15HasColon(u string) bool { return strings.Contains(u, ":") }
 
 var (
 	c15TPKinds = []string{"tp-both", "tp-both-diff", "tp-subj-only", "tp-actor-only", "tp-neither"}
@@ -188,6 +204,15 @@ func c15Random(r *hx.Rand) c15Spec {
 			"xchg-at", "xchg-jwt-at", "xchg-rt", "xchg-id", "revoked-xchg-at")
 	}
 	sp.sshadow, sp.ashadow = r.Chance(12), r.Chance(12)
+	// deep4: subjects with ':' (subject 22 %, actor 22 %), the trusting policy (35 % where no presented token's liveness rests on the lookup)
+	if r.Chance(22) {
+		sp.user = hx.Pick(r, c15ColonUsers...)
+	}
+	if r.Chance(22) {
+		sp.auser = hx.Pick(r, c15ColonUsers...)
+	}
+	sp.pol = "check"
+	trust := r.Chance(35)
 	sp.sdecl = "right"
 	if r.Chance(15) {
 		sp.sdecl = hx.Pick(r, ttAccess, ttRefresh, ttID, ttJWT, "urn:unknown", "", ttSAML1, ttSAML2)
@@ -214,6 +239,15 @@ func c15Random(r *hx.Rand) c15Spec {
 		[]string{"openid", refstore.ImpersonateScopePrefix + "user2"}, []string{"openid", refstore.ImpersonateScopePrefix + refstore.BlockedUser})
 	sp.audience = hx.Pick(r, []string(nil), []string(nil), []string{"api1"}, []string{"api1", "api2"})
 	sp.rsrc = hx.Pick(r, []string(nil), []string(nil), []string{"https://rs.example/a"})
+	if r.Chance(6) {
+		sp.scopes = []string{"openid", refstore.ImpersonateScopePrefix + "corp:user2"} // impersonation OF a user with a colon
+	}
+	// the trusting policy takes the framework's resolution as it is: it is a policy in the property's sense only where that resolution does
+	// not rest on the storage's lookup - no expired / revoked access token, and every token declared as the type it really has (an ID token
+	// declared an access_token passes the framework's JWT verifier with an empty jti and is only stopped by the lookup, notes/DEEP_C15.md §5)
+	if trust && !c15DeadAT[sp.skind] && !c15DeadAT[sp.akind] && sp.sdecl == "right" && (sp.akind == "none" || sp.adecl == "right") {
+		sp.pol = "trust"
+	}
 	return sp
 }
 
@@ -329,6 +363,30 @@ func c15Fixed() []c15Spec {
 	}
 	add("actor-type-without-actor", func(s *c15Spec) { s.aTypeAlone = ttJWT })
 	add("no-subject-token", func(s *c15Spec) { s.noSubject = true })
+	// ---- deep4: a LIVE token of a user whose subject contains ':' (one or several; empty prefix / suffix), as subject and as actor, opaque /
+	// JWT / ID token (refresh, result of an earlier exchange for the first), under the reference policy and the trusting policy
+	for _, u := range []string{"corp:user2", "urn:user:user2", ":user2", "user2:", "did:example:123:actor1"} {
+		u := u
+		kinds := []string{"opaque-at", "jwt-at", "id"}
+		if u == "corp:user2" {
+			kinds = append(kinds, "refresh", "xchg-at")
+		}
+		for _, k := range kinds {
+			k := k
+			for _, pol := range []string{"check", "trust"} {
+				pol := pol
+				add("colon-subject:"+u+":"+k+":"+pol, func(s *c15Spec) { s.user, s.skind, s.pol = u, k, pol })
+				add("colon-actor:"+u+":"+k+":"+pol, func(s *c15Spec) { s.auser, s.akind, s.pol = u, k, pol })
+			}
+		}
+	}
+	add("colon-subject+actor:opaque:trust", func(s *c15Spec) {
+		s.user, s.auser, s.akind, s.pol = "corp:user2", "did:example:123:actor1", "opaque-at", "trust"
+	})
+	add("colon-subject:jwt-at:jwt-presenter", func(s *c15Spec) { s.user, s.skind, s.reg.jwtAT, s.capPC = "urn:user:user2", "jwt-at", true, true })
+	add("colon-impersonated", func(s *c15Spec) { s.scopes = []string{"openid", refstore.ImpersonateScopePrefix + "corp:user2"} })
+	add("trusting-policy:plain", func(s *c15Spec) { s.pol = "trust" })
+	add("trusting-policy:delegation", func(s *c15Spec) { s.pol, s.akind = "trust", "opaque-at" })
 	return out
 }
 
@@ -477,10 +535,18 @@ func c15Stream(r *hx.Rand, tier string, n int, w *bufio.Writer) map[string]int {
 		} else {
 			sp = c15Random(r)
 		}
+		if sp.pol == "" {
+			sp.pol = "check"
+		}
+		if sp.auser == "" {
+			sp.auser = "actor1"
+		}
+		// the verifier table's shadow entry presupposes that the provider resolves its own token (see sshadow): not for subjects with ':'
+		sp.sshadow, sp.ashadow = sp.sshadow && !c15HasColon(sp.user), sp.ashadow && !c15HasColon(sp.auser)
 		bed, err := opbed.New(opbed.Config{Router: sp.router, S256: true, Post: true, PrivateKeyJWT: true, Refresh: true,
 			Caps: refstore.Caps{CC: true, TE: sp.capTE, TEVerifier: sp.capTEV, Device: true, UserinfoFromReq: sp.capUI},
 			StorageFn: func(st *refstore.Store) op.Storage {
-				return c15Storage(st, c15Caps{TE: sp.capTE, TEV: sp.capTEV, PC: sp.capPC, UI: sp.capUI})
+				return c15Storage(st, c15Caps{TE: sp.capTE, TEV: sp.capTEV, PC: sp.capPC, UI: sp.capUI, Trust: sp.pol == "trust"})
 			}})
 		if err != nil {
 			panic(err)
@@ -517,7 +583,7 @@ func c15Stream(r *hx.Rand, tier string, n int, w *bufio.Writer) map[string]int {
 		for _, fc := range cls {
 			bed.Store.AddClient(fc.c)
 		}
-		for _, u := range []string{"user1", "user2", "actor1", "tp-user", "tp-user-s", "tp-user-a", "shadow-s", "shadow-a", refstore.BlockedUser} {
+		for _, u := range append([]string{"user1", "user2", "actor1", "tp-user", "tp-user-s", "tp-user-a", "shadow-s", "shadow-a", refstore.BlockedUser}, c15ColonUsers...) {
 			bed.Store.AddUser(u, nil)
 		}
 		cs := &c15Case{bed: bed, sy: sy, web: web, webj: webjwt, ctx: op.ContextWithIssuer(context.Background(), opbed.Issuer)}
@@ -541,7 +607,7 @@ func c15Stream(r *hx.Rand, tier string, n int, w *bufio.Writer) map[string]int {
 			if sp.akind == sp.skind && subj.isTP {
 				actor = subj // the SAME third-party token in both roles
 			} else {
-				actor = cs.mk(sp.akind, "actor1", "actor")
+				actor = cs.mk(sp.akind, sp.auser, "actor")
 			}
 			actorDeclared = sp.adecl
 			if actorDeclared == "right" {
@@ -609,7 +675,7 @@ func c15Stream(r *hx.Rand, tier string, n int, w *bufio.Writer) map[string]int {
 			form.Add("resource", a)
 		}
 		l := hx.NewLine("C15").I("case", int64(i)).S("router", sp.router).B("cap.te", sp.capTE).B("cap.tev", sp.capTEV).B("cap.pc", sp.capPC).B("cap.ui", sp.capUI).
-			B("px.jwt", sp.reg.jwtAT).S("issuer", opbed.Issuer).
+			B("px.jwt", sp.reg.jwtAT).S("issuer", opbed.Issuer).S("pol", sp.pol).
 			B("post", true).B("pkjwt", true).B("refresh", true).B("cap.cc", true).B("cap.device", true).S("st.default", sp.storeDefault)
 		if sp.fixed != "" {
 			l.S("fixed", sp.fixed)
@@ -712,6 +778,14 @@ func c15Stream(r *hx.Rand, tier string, n int, w *bufio.Writer) map[string]int {
 		stats["actor-"+sp.akind]++
 		stats[fmt.Sprintf("presenter-te%d-rt%d-%s", b2i(sp.reg.te), b2i(sp.reg.rt), sp.reg.auth)]++
 		stats["cred-"+sp.cred]++
+		stats["policy-"+sp.pol]++
+		stats[fmt.Sprintf("colon-in-subject%d-actor%d/%s", b2i(c15HasColon(sp.user)), b2i(sp.akind != "none" && c15HasColon(sp.auser)), c15Outcome(resp.Status))]++
+		if c15HasColon(sp.user) {
+			stats["colon-subject-"+sp.skind+"/"+sp.pol+"/"+c15Outcome(resp.Status)]++
+		}
+		if sp.akind != "none" && c15HasColon(sp.auser) {
+			stats["colon-actor-"+sp.akind+"/"+sp.pol+"/"+c15Outcome(resp.Status)]++
+		}
 		stats[fmt.Sprintf("storage-te%d-verifier%d", b2i(sp.capTE), b2i(sp.capTEV))]++
 		stats[fmt.Sprintf("storage-te%d-privclaims%d-userinfo%d/px-jwt%d", b2i(sp.capTE), b2i(sp.capPC), b2i(sp.capUI), b2i(sp.reg.jwtAT))]++
 		stats[fmt.Sprintf("params-stype%d-atok%d-atype%d-req%d-scope%d-aud%d-res%d", b2i(declared != ""), b2i(sp.akind != "none"), b2i(actorDeclared != ""),
